@@ -85,10 +85,13 @@ func (ch *ConnectionHandler) acceptStream() {
 		stream = streams.NewNamedConnection(stream, stream.RemoteAddr().String())
 		log.Debugf("[Server] New logical connection accepted: %v", stream)
 
-		if err = ch.multiplexToUpstream(stream); err != nil {
-			log.WithError(err).Errorf("Error selecting multichannel stream: %v", err)
-			streams.TryClose(stream)
-		}
+		// Serve the stream on its own goroutine, the loop must stay free to accept the next one
+		go func(stream net.Conn) {
+			if err := ch.multiplexToUpstream(stream); err != nil {
+				log.WithError(err).Errorf("Error selecting multichannel stream: %v", err)
+				streams.TryClose(stream)
+			}
+		}(stream)
 	}
 }
 
